@@ -178,6 +178,27 @@ def run(ck: Check):
         if connection.PROTO_TO_MESSAGE_TYPE.get(reg[i]) != i:
             ck.violation(f"inverse-id:{i}", f"PROTO_TO_MESSAGE_TYPE[{want}] = {connection.PROTO_TO_MESSAGE_TYPE.get(reg[i])} != {i}",
                          {"id": i})
+    # --- the lookup as the receive path performs it: a frame carrying id i reaches the subscribers of the class api.proto
+    # declares for i (and nobody else), for EVERY declared id
+    client, conn, tr, loop = live.make_client()
+    got = []
+    for i, cls in reg.items():
+        conn.add_message_callback(lambda m, i=i: got.append((i, type(m).__name__)), (cls,))
+    for i in sorted(text):
+        n_eval += 1
+        got.clear()
+        try:
+            conn.process_packet(i, b"")
+        except Exception as e:  # noqa: BLE001
+            got.append((i, "raised:" + type(e).__name__))
+        internal = text[i] in ("DisconnectRequest", "DisconnectResponse")   # these close the session: fresh one below
+        if got != [(i, text[i])]:
+            ck.violation(f"delivery-id:{i}", f"an (empty) frame with id {i} was delivered as {got}, api.proto declares {text[i]} for it",
+                         {"id": i, "declared": text[i], "delivered": [list(g) for g in got]})
+        if internal or not conn.is_connected:
+            client, conn, tr, loop = live.make_client()
+            for j, cls in reg.items():
+                conn.add_message_callback(lambda m, j=j: got.append((j, type(m).__name__)), (cls,))
     ids = sorted(text)
     if ids != list(range(1, len(ids) + 1)):
         gaps = sorted(set(range(1, max(ids) + 1)) - set(ids))
